@@ -51,36 +51,41 @@ type Counters struct {
 
 var OnStuck func(reason string)
 
-func SetMode(m int)                     {}
-func Mode() int                         { return 0 }
-func GStep() int64                      { return 0 }
-func ResetGStep()                       {}
-func ArmPark(n int64)                   {}
-func Parked() <-chan int64              { return nil }
-func Resume()                           {}
-func SetStepBudget(max int64)           {}
-func Progress()                         {}
-func SetLiveBudget(b uint64)            {}
-func TotalSteps() uint64                { return 0 }
-func ResetLive()                        {}
-func ReadCounters() Counters            { return Counters{} }
-func CondWaits() uint64                 { return 0 }
-func CASFails() uint64                  { return 0 }
-func LockBalance() int64                { return 0 }
-func SetVirtual(on bool)                {}
-func VNow() int64                       { return time.Now().UnixNano() }
-func SetVNow(t int64)                   {}
-func SetAutoTick(d int64)               {}
-func AdvanceQuiet(d time.Duration)      {}
-func Advance(d time.Duration)           {}
-func Tickers() []*FakeTicker            { return nil }
-func ResetTickers()                     {}
-func (f *FakeTicker) Stopped() bool     { return false }
-func (f *FakeTicker) Fire() bool        { return false }
-func (f *FakeTicker) FireWait(int) bool { return false }
-func (f *FakeTicker) Pending() bool     { return false }
-func (f *FakeTicker) Armed() bool       { return false }
-func (f *FakeTicker) IsOneShot() bool   { return false }
+func SetMode(m int)                                {}
+func Mode() int                                    { return 0 }
+func GStep() int64                                 { return 0 }
+func ResetGStep()                                  {}
+func ArmPark(n int64)                              {}
+func Parked() <-chan int64                         { return nil }
+func Resume()                                      {}
+func SetStepBudget(max int64)                      {}
+func Progress()                                    {}
+func SetLiveBudget(b uint64)                       {}
+func TotalSteps() uint64                           { return 0 }
+func ResetLive()                                   {}
+func ReadCounters() Counters                       { return Counters{} }
+func CondWaits() uint64                            { return 0 }
+func CASFails() uint64                             { return 0 }
+func LockBalance() int64                           { return 0 }
+func SetVirtual(on bool)                           {}
+func VNow() int64                                  { return time.Now().UnixNano() }
+func SetVNow(t int64)                              {}
+func SetAutoTick(d int64)                          {}
+func AdvanceQuiet(d time.Duration)                 {}
+func Advance(d time.Duration)                      {}
+func Tickers() []*FakeTicker                       { return nil }
+func ResetTickers()                                {}
+func (f *FakeTicker) Stopped() bool                { return false }
+func (f *FakeTicker) Fire() bool                   { return false }
+func (f *FakeTicker) FireWait(int) bool            { return false }
+func (f *FakeTicker) Pending() bool                { return false }
+func (f *FakeTicker) Armed() bool                  { return false }
+func (f *FakeTicker) Next() int64                  { return 0 }
+func (f *FakeTicker) CurrentPeriod() time.Duration { return 0 }
+func (f *FakeTicker) FireDue(int64, int) (bool, bool) {
+	return false, false
+}
+func (f *FakeTicker) IsOneShot() bool { return false }
 
 type ParkToken struct {
 	Step int64
